@@ -3543,6 +3543,11 @@ class QuicConnection:
                 else 0
             )
         )
+        if builder.remaining_flight_space < frame_overhead:
+            # There is no room even for an empty frame. Do not ask the sender
+            # for one: a FIN-only frame would be taken out of the sender and
+            # then dropped because it cannot be written, losing the FIN.
+            return 0
         previous_send_highest = stream.sender.highest_offset
         frame = stream.sender.get_frame(
             builder.remaining_flight_space - frame_overhead, max_offset
